@@ -9,12 +9,13 @@ package ruleset
 import (
 	"errors"
 	"regexp"
+	"slices"
 	"strings"
 )
 
 type RegexpMatcher struct {
-	include *regexp.Regexp
-	exclude *regexp.Regexp
+	include []*regexp.Regexp
+	exclude []*regexp.Regexp
 	inverse bool
 }
 
@@ -26,26 +27,12 @@ func NewRegexpMatcher(include, exclude []*regexp.Regexp) (*RegexpMatcher, error)
 		return nil, ErrNoIncludeRules
 	}
 
-	build := func(rules []*regexp.Regexp) *regexp.Regexp {
-		var regex strings.Builder
-		for i := range rules {
-			if i > 0 {
-				regex.WriteString("|")
-			}
-			// Group each rule so that its flags and alternations stay local to it.
-			regex.WriteString("(?:")
-			regex.WriteString(rules[i].String())
-			regex.WriteString(")")
-		}
-		if s := regex.String(); s != "" {
-			return regexp.MustCompile(s)
-		}
-		return nil
-	}
-
+	// Every rule is evaluated on its own. Joining the rules into one alternation is not
+	// equivalent: flags of one rule leak into the next, and regexp/syntax factors common
+	// prefixes of alternatives without regard to case folding ("A|(?i:a)x" does not match "ax").
 	return &RegexpMatcher{
-		include: build(include),
-		exclude: build(exclude),
+		include: slices.Clone(include),
+		exclude: slices.Clone(exclude),
 	}, nil
 }
 
@@ -69,10 +56,17 @@ func (r *RegexpMatcher) Match(s string) bool {
 }
 
 func (r *RegexpMatcher) match(s string) bool {
-	if r.exclude != nil && r.exclude.MatchString(s) {
-		return false
+	for _, x := range r.exclude {
+		if x.MatchString(s) {
+			return false
+		}
 	}
-	return r.include != nil && r.include.MatchString(s)
+	for _, x := range r.include {
+		if x.MatchString(s) {
+			return true
+		}
+	}
+	return false
 }
 
 type RegexpListItem struct {
